@@ -194,8 +194,19 @@ def ob_record_alone_vs_pair(W, layout, N):
             W.goal("record of channel %d, sample %d: alone = in pair" % (c, i), W.eq(val(st_pair[i]), val(st_alone[i])))
 
 
+def ob_dispatch(W, order, backend):
+    """a two-channel analysis hands BOTH channels to the cross-spectral kernel of every bin, whatever the data are (the analyzer is built
+    by its real constructor on a symbolic record; kernels are recorders) -- the link between the kernel-level identities above and
+    the result of an analysis"""
+    from . import C05
+    return C05.ob_compute(W, [4, 6], [2, 1], order, True, backend, "kaiser")
+
+
 def obligations(tier):
     obs = [{"name": "result/bounds", "fn": "ob_result_bounds", "params": {}}, {"name": "result/coh1", "fn": "ob_result_coh1", "params": {}}]
+    for order, backend in ((0, "numpy"), (-1, "numba"), (1, "cuda")):
+        obs.append({"name": "dispatch/o%d/%s" % (order, backend), "fn": "ob_dispatch", "params": {"order": order, "backend": backend}, "weight": 6,
+                    "only": ["*/kernel-mode", "*/kernel-family", "*/channel-1", "*/channel-2", "*/XX", "*/YY", "*/XY"]})
     for layout in ("2xN-C", "Nx2-C"):
         obs.append({"name": "record/alone-vs-pair/%s" % layout, "fn": "ob_record_alone_vs_pair", "params": {"layout": layout, "N": 3}, "fork": True, "max_paths": 600, "weight": 10})
     for z in ("x", "y", "both"):
